@@ -488,6 +488,14 @@ void cmb_event_queue_print(FILE *fp)
 }
 
 /*
+ * Withdraw any not yet executed event-wait wakeup calls for this process
+ */
+void cmi_event_cancel_wakeups(const struct cmb_process *pp)
+{
+    (void)cmb_event_pattern_cancel(wakeup_event_event, pp, CMB_ANY_OBJECT);
+}
+
+/*
  * Register a waiting process at the event in its current location
  */
 void cmi_event_add_waiter(const uint64_t key, struct cmb_process *pp)
@@ -509,8 +517,11 @@ void cmi_event_add_waiter(const uint64_t key, struct cmb_process *pp)
 bool cmi_event_remove_waiter(const uint64_t key, const struct cmb_process *pp)
 {
     cmb_assert_release(event_queue != NULL);
-    cmb_assert_release(cmi_hashheap_count(event_queue) > 0u);
-    cmb_assert_release(cmi_hashheap_is_enqueued(event_queue, key));
+    if (!cmi_hashheap_is_enqueued(event_queue, key)) {
+        /* The event has just been executed or cancelled and has taken its
+         * waiter list with it, nothing to deregister from */
+        return false;
+    }
 
     struct event_peek *tmp = (struct event_peek *)cmi_hashheap_item(event_queue, key);
     struct cmi_slist_head *whead = &(tmp->waiters);
